@@ -595,6 +595,21 @@ func (x *Exec) applyContract(st *State, fr *Frame, callee *ssa.Function, con *Co
 			x.assertEval[ba.C]++
 		}
 	}
+	if x.con != nil && fr != nil && fr.parent == nil {
+		for _, bu := range x.con.BeforeUses {
+			if bu.Callee != funcName(callee) {
+				continue
+			}
+			uenv := &Env{st: st, vars: map[string]Val{}, pkg: x.con.Pkg, old: x.entry, fr: fr}
+			for k, v := range x.params {
+				uenv.vars[k] = v
+			}
+			for i, p := range callee.Params {
+				uenv.vars[p.Name()] = args[i]
+			}
+			x.useLemma(st, uenv, bu.E, x.con.Props)
+		}
+	}
 	if x.con != nil {
 		for _, ba := range x.con.BeforeAssumes {
 			if ba.Callee == funcName(callee) {
